@@ -556,4 +556,117 @@ theorem KItems.encode1 (W : String → Option Int) : (its : List KItem) → (∀
       rw [hp2.posOther n (fun o v b hm => hne o v b (List.mem_cons_of_mem _ hm))]
       exact hoth1 n (fun o v b e => hne o v b (by rw [e]; exact List.mem_cons_self ..))
 
+/-! ### the second pass -/
+
+theorem encodeKeyValues_cons_nonkey (p : Param) (hp : p.kind.isKey = false) (f : Nat) (rest : List Param) (s : EncState)
+    (st : Bool) : encodeKeyValues (f + 1) (p :: rest) s st = encodeKeyValues f rest s st := by
+  obtain ⟨name, bp, bitp, kind⟩ := p
+  cases kind with
+  | lengthKey dop => simp [Param.kind, PKind.isKey] at hp
+  | _ => simp only [encodeKeyValues]
+
+theorem cellStep_lengthKeys (c : Cell) (s : EncState) : (cellStep c s).lengthKeys = s.lengthKeys := rfl
+theorem cellStep_keyPos (c : Cell) (s : EncState) : (cellStep c s).keyPos = s.keyPos := rfl
+
+theorem encodeKeyValues_cons_key (o : Obj) (hk : o.keyOk) (v : Int) (hr : o.inRange (.int v)) (pos : Nat) (f : Nat)
+    (rest : List Param) (s : EncState) (hl : lookup o.name s.lengthKeys = some v) (hp : lookup o.name s.keyPos = some pos) :
+    encodeKeyValues (f + 2) (o.toKeyParam :: rest) s true = encodeKeyValues (f + 1) rest (cellStep (o, v, pos) s) true := by
+  have hrun := encodeDop_key o hk v hr pos f s
+  simp only [Obj.toKeyParam, encodeKeyValues, bind, run_bind, run_getS, hl, hp, keyReprCheck, Obj.keyDop, cmKeyRepr, pure,
+    run_pure, run_modifyS]
+  simp only [Obj.keyDop] at hrun
+  rw [hrun]
+
+/-- **the second loop of `composite_codec_encode_into_pdu`** = `enc2` on the keys' cells, taken from the recorded positions -/
+theorem KItems.encode2 : (its : List KItem) → (∀ it ∈ its, it.ok) → ∀ (fuel : Nat), Comps.need (KItems.comps its) ≤ fuel →
+    ∀ (s : EncState),
+    (∀ o v b, KItem.key o v b ∈ its → lookup o.name s.lengthKeys = some v ∧ (lookup o.name s.keyPos).isSome = true) →
+    encodeKeyValues fuel (Comps.toParams (KItems.comps its)) s true = .ok ((), enc2 (KItems.cells2 s.keyPos its) s)
+  | [], _, fuel, hf, s, _ => by
+    simp only [KItems.comps, List.map_nil, Comps.need] at hf
+    obtain ⟨f, rfl⟩ : ∃ f, fuel = f + 1 := ⟨fuel - 1, by omega⟩
+    simp [KItems.comps, Comps.toParams, encodeKeyValues, pure, run_pure, KItems.cells2, enc2]
+  | it :: its, hok, fuel, hf, s, hkeys => by
+    have hokit := hok it (List.mem_cons_self ..)
+    have hokr : ∀ x ∈ its, x.ok := fun x hx => hok x (List.mem_cons_of_mem _ hx)
+    rw [KItems.comps_cons] at hf
+    simp only [Comps.need] at hf
+    have hkeysr : ∀ o v b, KItem.key o v b ∈ its → lookup o.name s.lengthKeys = some v ∧ (lookup o.name s.keyPos).isSome = true :=
+      fun o v b hm => hkeys o v b (List.mem_cons_of_mem _ hm)
+    simp only [KItems.comps_cons, Comps.toParams, List.map_cons]
+    cases it with
+    | comp g =>
+      obtain ⟨f, rfl⟩ : ∃ f, fuel = f + 1 := ⟨fuel - 1, by omega⟩
+      simp only [KItem.toComp]
+      rw [encodeKeyValues_cons_nonkey g.param hokit.1.notKey f]
+      exact KItems.encode2 its hokr f (by omega) s hkeysr
+    | user u =>
+      obtain ⟨f, rfl⟩ : ∃ f, fuel = f + 1 := ⟨fuel - 1, by omega⟩
+      simp only [KItem.toComp]
+      rw [encodeKeyValues_cons_nonkey u.toParam (by rfl) f]
+      exact KItems.encode2 its hokr f (by omega) s hkeysr
+    | key o v b =>
+      obtain ⟨f, rfl⟩ : ∃ f, fuel = f + 2 := ⟨fuel - 2, by simp only [KItem.toComp] at hf; omega⟩
+      obtain ⟨h1, h2⟩ := hkeys o v b (List.mem_cons_self ..)
+      obtain ⟨pos, hpos⟩ := Option.isSome_iff_exists.mp h2
+      simp only [KItem.toComp]
+      rw [encodeKeyValues_cons_key o hokit.1 v hokit.2 pos f _ s h1 hpos]
+      have := KItems.encode2 its hokr (f + 1) (by simp only [KItem.toComp] at hf; omega) (cellStep (o, v, pos) s) hkeysr
+      simp only [Comps.toParams] at this
+      rw [this]
+      simp only [KItems.cells2, hpos, Option.getD_some, enc2, cellStep_keyPos]
+
+/-! ### the decoder -/
+
+/-- the decoder half of `Comp.Ok` -/
+structure Comp.DecOk (g : Comp) : Prop where
+  dec_cursorBit : ∀ (d : DecState), d.cursorBit = 0 → (g.pair.dec d).2.cursorBit = 0
+  dec_msg : ∀ (d : DecState), (g.pair.dec d).2.msg = d.msg
+  decode_eq : ∀ (fuel : Nat), g.need ≤ fuel → ∀ (d : DecState), d.cursorBit = 0 → g.pair.fits d → g.decPre d →
+    decodeParam fuel g.param d true = .ok ((g.pair.dec d).1, (g.pair.dec d).2)
+
+theorem KItem.decOk (it : KItem) (h : it.ok) : it.toComp.DecOk := by
+  cases it with
+  | comp g => exact ⟨h.1.dec_cursorBit, h.1.dec_msg, h.1.decode_eq⟩
+  | key o v b =>
+    refine ⟨fun _ _ => rfl, fun _ => rfl, ?_⟩
+    intro fuel hf d _ hfit hpre
+    obtain ⟨f, rfl⟩ : ∃ f, fuel = f + 2 := ⟨fuel - 2, by simp only [KItem.toComp] at hf; omega⟩
+    exact decodeParam_key o h.1 v f d hfit hpre
+  | user u =>
+    refine ⟨fun _ _ => rfl, fun _ => rfl, ?_⟩
+    intro fuel hf d _ hfit hpre
+    obtain ⟨f, rfl⟩ : ∃ f, fuel = f + 2 := ⟨fuel - 2, by simp only [KItem.toComp] at hf; omega⟩
+    exact u.decodeParam_eq h f d hfit hpre
+
+theorem KItems.dec_cursorBit : (its : List KItem) → (∀ it ∈ its, it.ok) → ∀ (d : DecState), d.cursorBit = 0 →
+    ((Comps.pair (KItems.comps its)).dec d).2.cursorBit = 0
+  | [], _, _, h => h
+  | it :: its, hok, d, h => by
+    simp only [KItems.comps_cons, Comps.pair, Pair.map, Pair.seq]
+    exact KItems.dec_cursorBit its (fun x hx => hok x (List.mem_cons_of_mem _ hx)) _
+      ((it.decOk (hok it (List.mem_cons_self ..))).dec_cursorBit d h)
+
+/-- **the model's decoder on a list of items** = the pure decoder, given the items' decoder preconditions -/
+theorem KItems.decode_eq : (its : List KItem) → (∀ it ∈ its, it.ok) → ∀ (fuel : Nat), Comps.need (KItems.comps its) ≤ fuel →
+    ∀ (d : DecState), d.cursorBit = 0 → (Comps.pair (KItems.comps its)).fits d → Comps.decPre (KItems.comps its) d →
+    decodeParams fuel (Comps.toParams (KItems.comps its)) d true =
+      .ok (((Comps.pair (KItems.comps its)).dec d).1, ((Comps.pair (KItems.comps its)).dec d).2)
+  | [], _, fuel, hf, d, _, _, _ => by
+    simp only [KItems.comps, List.map_nil, Comps.need] at hf
+    obtain ⟨f, rfl⟩ : ∃ f, fuel = f + 1 := ⟨fuel - 1, by omega⟩
+    simp [KItems.comps, Comps.toParams, decodeParams, pure, run_pure, Comps.pair, Pair.nil]
+  | it :: its, hok, fuel, hf, d, hcb, hfit, hpre => by
+    have hd := it.decOk (hok it (List.mem_cons_self ..))
+    rw [KItems.comps_cons] at hf hfit hpre
+    simp only [Comps.need] at hf
+    obtain ⟨f, rfl⟩ : ∃ f, fuel = f + 1 := ⟨fuel - 1, by omega⟩
+    have hfit' : it.toComp.pair.fits d ∧ (Comps.pair (KItems.comps its)).fits (it.toComp.pair.dec d).2 := hfit
+    have h1 := hd.decode_eq f (by omega) d hcb hfit'.1 hpre.1
+    have h2 := KItems.decode_eq its (fun x hx => hok x (List.mem_cons_of_mem _ hx)) f (by omega) (it.toComp.pair.dec d).2
+      (hd.dec_cursorBit d hcb) hfit'.2 hpre.2
+    have h2' : decodeParams f (List.map Comp.param (KItems.comps its)) (it.toComp.pair.dec d).2 true = _ := h2
+    simp only [KItems.comps_cons, Comps.toParams, List.map_cons, decodeParams, bind, run_bind, h1, h2', pure, run_pure]
+    rfl
+
 end OdxVerif.Codec
